@@ -29,6 +29,7 @@ type c02CrashParams struct {
 	Block  uint32 `json:"block"`
 	K      int    `json:"k"`
 	After  bool   `json:"after"`
+	Fail   bool   `json:"fail"` // instead of killing the process, make statement k return an error once ("a block fails")
 	WAL    bool   `json:"wal"`
 	DBPath string `json:"db_path"`
 }
@@ -38,6 +39,8 @@ type c02VerifyParams struct {
 	Block  uint32 `json:"block"`
 	K      int    `json:"k"`
 	After  bool   `json:"after"`
+	Fail   bool   `json:"fail"`
+	Site   string `json:"site"`
 	WAL    bool   `json:"wal"`
 	DBPath string `json:"db_path"`
 	Stmt   string `json:"stmt"`
@@ -77,6 +80,9 @@ func c02Crash(j *orch.Job, r *orch.Result) error {
 		}
 		k := atomic.AddInt64(&cnt, 1)
 		if int(k) == p.K {
+			if p.Fail {
+				return vdriver.FailInstead, 0
+			}
 			if p.After {
 				return vdriver.KillAfter, 0
 			}
@@ -85,6 +91,17 @@ func c02Crash(j *orch.Job, r *orch.Result) error {
 		return vdriver.Proceed, 0
 	}})
 	n.Run()
+	if p.Fail {
+		// the block fails once; the daemon then goes on for two blocks (or stops: crash-stop)
+		err = n.WaitSynced(p.Block+1, harness.WaitOpts{MaxAttempts: 6})
+		r.Info["failed_block_run"] = true
+		if err != nil {
+			r.Info["stopped"] = err.Error()
+			return nil
+		}
+		n.Stop()
+		return nil
+	}
 	err = n.WaitSynced(p.Block, harness.WaitOpts{})
 	// reaching this point means the kill point was not hit (k beyond the statements of the attempt)
 	r.Info["not_killed"] = true
@@ -128,8 +145,14 @@ func c02Verify(j *orch.Job, r *orch.Result) error {
 	if p.After {
 		when = "after"
 	}
+	if p.Fail {
+		when = "fails"
+	}
 	cd := map[string]interface{}{"block": p.Block, "label": p.Label, "k": p.K, "when": when, "statement": p.Stmt, "wal": p.WAL, "chain_seed": rm.Meta.Seed}
 	sig := func(what string) string {
+		if p.Fail {
+			return fmt.Sprintf("%s label=%s stmt=%s/%s site=%s", what, p.Label, when, clipS(p.Stmt, 60), p.Site)
+		}
 		return fmt.Sprintf("%s label=%s stmt=%s/%s", what, p.Label, when, clipS(p.Stmt, 60))
 	}
 	// plain driver, read-write open (recovers a hot journal / WAL like any fresh process would)
@@ -159,7 +182,10 @@ func c02Verify(j *orch.Job, r *orch.Result) error {
 	} else {
 		r.Count("crashes_before_commit_point", 1)
 	}
-	if s != p.Block-1 && s != p.Block {
+	if p.Fail {
+		r.Count("block_failure_points_verified", 1)
+	}
+	if s != p.Block-1 && s != p.Block && !(p.Fail && s == p.Block+1) {
 		r.Violate("C02", sig("height"), fmt.Sprintf("recorded sync height %d after a crash while applying block %d", s, p.Block), cd)
 		db.Close()
 		return nil
@@ -245,6 +271,7 @@ func checkC02(c *Ctx) *orch.Outcome {
 		wal   bool
 		st    StmtInfo
 		label string
+		fail  bool
 	}
 	var pts []point
 	totalPoints := 0
@@ -297,20 +324,32 @@ func checkC02(c *Ctx) *orch.Outcome {
 				}
 				wal := false
 				if c.Thorough() {
-					pts = append(pts, point{b, k, after, true, st, prof.Label})
+					pts = append(pts, point{b, k, after, true, st, prof.Label, false})
 				} else if rng.Intn(4) == 0 {
 					wal = true
 				}
-				pts = append(pts, point{b, k, after, wal, st, prof.Label})
+				pts = append(pts, point{b, k, after, wal, st, prof.Label, false})
 			}
+		}
+	}
+	// "or a block fails at any instant": the same points, but the statement returns an error once instead of the process dying
+	nKill := len(pts)
+	for i := 0; i < nKill; i++ {
+		pt := pts[i]
+		if pt.after || pt.wal {
+			continue
+		}
+		if c.Thorough() || pt.k == 1 || pt.k == len(rm.Profiles[pt.b].Stmts) || rng.Intn(6) == 0 {
+			pt.fail = true
+			pts = append(pts, pt)
 		}
 	}
 	var crashJobs, verifyJobs []orch.Job
 	for i, pt := range pts {
 		dbp := filepath.Join(c.R.Scratch, fmt.Sprintf("c02-db-%d", i))
-		cp, _ := json.Marshal(c02CrashParams{Dir: dir, Block: pt.b, K: pt.k, After: pt.after, WAL: pt.wal, DBPath: dbp})
+		cp, _ := json.Marshal(c02CrashParams{Dir: dir, Block: pt.b, K: pt.k, After: pt.after, WAL: pt.wal, DBPath: dbp, Fail: pt.fail})
 		crashJobs = append(crashJobs, orch.Job{Kind: "c02.crash", Name: fmt.Sprintf("c02-crash-%d", i), Params: cp, Timeout: 300})
-		vp, _ := json.Marshal(c02VerifyParams{Dir: dir, Block: pt.b, K: pt.k, After: pt.after, WAL: pt.wal, DBPath: dbp, Stmt: pt.st.Kind + " " + pt.st.SQL, Label: pt.label})
+		vp, _ := json.Marshal(c02VerifyParams{Dir: dir, Block: pt.b, K: pt.k, After: pt.after, WAL: pt.wal, DBPath: dbp, Stmt: pt.st.Kind + " " + pt.st.SQL, Label: pt.label, Fail: pt.fail, Site: pt.st.Stratum()})
 		verifyJobs = append(verifyJobs, orch.Job{Kind: "c02.verify", Name: fmt.Sprintf("c02-verify-%d", i), Params: vp, Timeout: 600})
 	}
 	// crash then verify each point (pipeline per point keeps disk use low)
@@ -332,11 +371,20 @@ func checkC02(c *Ctx) *orch.Outcome {
 	for range pts {
 		<-done
 	}
-	killed := 0
+	killed, failRuns := 0, 0
 	strata := map[string]bool{}
 	var vr []*orch.Result
 	for i, pr := range results {
 		pt := pts[i]
+		if pt.fail {
+			failRuns++
+			strata[fmt.Sprintf("%s|%s|fails", pt.label, pt.st.Stratum())] = true
+			if pr.verify.Crashed {
+				o.Inconclusive = append(o.Inconclusive, fmt.Sprintf("verifier for point %d crashed: %s", i, clipS(pr.verify.Stderr, 400)))
+			}
+			vr = append(vr, pr.verify)
+			continue
+		}
 		if pr.crash.ExitCode == 137 || pr.crash.Crashed && pr.crash.Info["not_killed"] == nil {
 			killed++
 			when := "before"
@@ -368,8 +416,10 @@ func checkC02(c *Ctx) *orch.Outcome {
 		o.Exhaustive = true
 		o.Extra["exhaustive_within"] = "every statement index × {before, after} × {rollback journal, WAL} of the listed special blocks of one rich chain"
 	}
-	if killed < len(pts)*9/10 {
-		o.Inconclusive = append(o.Inconclusive, fmt.Sprintf("only %d of %d crash children were killed at their crash point", killed, len(pts)))
+	o.Extra["block_failure_points"] = failRuns
+	o.Extra["block_failure_points_verified"] = orch.SumCounter(vr, "block_failure_points_verified")
+	if killed < (len(pts)-failRuns)*9/10 {
+		o.Inconclusive = append(o.Inconclusive, fmt.Sprintf("only %d of %d crash children were killed at their crash point", killed, len(pts)-failRuns))
 	}
 	o.MinNontrivial = 30
 	return o
